@@ -111,7 +111,7 @@ def run(ctx):
 
     reps = 2 if ctx.tier == "quick" else 8
     for _ in range(reps):
-        for size in (74, 96, 32, 200):
+        for size in (74, 96, 32, 200, 250):
             total = (size + 31) // 32
             allc = list(range(total))
             some = sorted({rng.below(total) for _ in range(rng.range(1, total))})
@@ -124,6 +124,12 @@ def run(ctx):
             add({"chunks": some, "tmp_chunks": allc, "nodata": True}, "data-file-deleted-tmp-left", size=size)
             add({"chunks": some, "tmp_chunks": allc}, "legit-partial-tmp-left", size=size)
             add({"chunks": allc, "short": max(1, size // 2)}, "data-file-shortened", size=size)
+            if total >= 4:
+                # recorded chunks on both sides of a gap, the file cut inside the gap: as many bytes are left as are recorded, but not those
+                gap = [0, 1] + list(range(total - 2, total))
+                for cut in (len(gap) * 32, len(gap) * 32 + 5, 2 * 32):
+                    if cut < size:
+                        add({"chunks": gap, "short": cut}, "data-file-shortened-inside-gap", size=size)
             add({"chunks": allc, "garbage": True, "foreign_chunk": 16}, "foreign-chunk-size", size=size)
             # another chunk size that happens to give the same number of chunks for this file
             same = [c for c in (31, 33, 30, 34, 29, 36, 28, 40, 27) if (size + c - 1) // c == total]
